@@ -25,10 +25,24 @@ PROPS = {
         comps={"outcome", "bank", "pools"},
         assumptions=_CS_ASSUME,
     ),
-    "C08": dict(suite="coinswap", modules=["CantoVerif.Props.C01"], theorems=["CV.Coinswap.remove_ok"],
-                comps={"outcome", "bank", "resp"}, assumptions=_CS_ASSUME),
-    "C09": dict(suite="coinswap", modules=["CantoVerif.Props.C01"], theorems=["CV.Coinswap.swap_ok"],
-                comps={"outcome", "bank"}, assumptions=_CS_ASSUME),
+    "C02": dict(
+        suite="coinswap", modules=["CantoVerif.Props.C02"],
+        theorems=["CV.Coinswap.rejected_unchanged", "CV.Coinswap.swap_conserves", "CV.Coinswap.remove_conserves",
+                  "CV.Coinswap.add_conserves", "CV.group_flow", "CV.within_conserves", "CV.Bank.applyAll_flow",
+                  "CV.deliver_rejected_unchanged", "CV.Coinswap.poolTax_ok"],
+        comps={"outcome", "bank", "pools"}, assumptions=_CS_ASSUME),
+    "C08": dict(
+        suite="coinswap", modules=["CantoVerif.Props.C08"],
+        theorems=["CV.Coinswap.deadline_respected", "CV.Coinswap.notPast_of_not_pastDeadline", "CV.Coinswap.sell_exact_in_min_out",
+                  "CV.Coinswap.buy_exact_out_max_in", "CV.Coinswap.add_bounds", "CV.Coinswap.remove_bounds",
+                  "CV.Coinswap.sell_bound_tight", "CV.Coinswap.inputPrice_ok", "CV.Coinswap.outputPrice_ok",
+                  "CV.Coinswap.addLiveAmounts_ok", "CV.Coinswap.removeAmounts_ok"],
+        comps={"outcome", "bank", "resp"}, assumptions=_CS_ASSUME),
+    "C09": dict(
+        suite="coinswap", modules=["CantoVerif.Props.C09"],
+        theorems=["CV.Coinswap.swap_caps", "CV.Coinswap.no_module_recipient", "CV.Coinswap.blocked_any_form",
+                  "CV.Coinswap.add_caps", "CV.Coinswap.pools_against_standard", "CV.Coinswap.wf_step", "CV.Coinswap.quoteLeg_fst"],
+        comps={"outcome", "bank"}, assumptions=_CS_ASSUME),
 }
 
 TEXT = {
@@ -41,13 +55,30 @@ TEXT = {
               "regenerated formulas."),
         note=COMMON_NOTE + "Assumptions stated as hypotheses: EnvOK (pool-address hash has no collisions among the pool-token denominations "
              "in play and never equals the module / fee-collector account), signers are not escrow addresses."),
+    "C02": dict(
+        text=("Proved for the model, for all amounts, parameters and any number of other accounts and pools: swap_conserves, "
+              "remove_conserves, add_conserves (for every duplicate-free group of accounts containing payer, recipient and escrow the "
+              "group's total of every ordinary coin is unchanged, nobody outside changes, only the pool-token supply changes and by "
+              "exactly the amount credited to / taken from the provider; on pool creation the fee is split exactly into floor(fee*rate) "
+              "to the fee collector and a burn of the rest), rejected_unchanged (every rejection leaves the whole state as it was). "
+              "All derived from one generic theorem about bank effect lists (applyAll_flow / group_flow). The correspondence diffs the "
+              "WHOLE bank ledger and supply of the real application before/after every message. The SDK's own registered invariants "
+              "(bank total supply etc.) belong to trusted SDK modules and are not proved."),
+        note=COMMON_NOTE + "The coinswap module account is assumed not to be payer, recipient or escrow (it is a blocked module account)."),
     "C08": dict(
-        text=("Model and correspondence of the coinswap message server incl. responses; the property predicates (deadline, user bounds, "
-              "within-one-unit rounding in the pool's favour, response = ledger delta) are evaluated on every implementation transition; "
-              "theorems for them are being added (this entry currently claims the inversion lemmas + correspondence)."),
+        text=("Proved for the model for all inputs: deadline_respected (success implies block time not past the deadline, incl. the "
+              "time.Unix wrap-around of huge deadlines and sub-second block times), sell_exact_in_min_out, buy_exact_out_max_in, add_bounds, "
+              "remove_bounds (user bounds honoured; executed amounts are the exact constant-product-with-fee / pro-rata values rounded "
+              "one unit at most and always in the pool's favour, stated cross-multiplied on the code's integer formulas; the response "
+              "equals the coins actually moved), sell_bound_tight (bound just met accepted / just missed rejected). The correspondence "
+              "generates bounds from the implementation's own quote (quote-1, quote, quote+1) and compares responses."),
         note=COMMON_NOTE),
     "C09": dict(
-        text=("Model and correspondence of the coinswap message server; predicates whitelist / per-swap cap / pool cap / no module recipient "
-              "evaluated on every implementation transition; theorems being added."),
+        text=("Proved for the model for every parameter setting in force at the moment of the operation: swap_caps (exactly one standard "
+              "leg, counter-asset whitelisted, and the counter-asset leg - computed or stated, all four kind x direction cases - at most "
+              "its per-swap maximum), add_caps (whitelisted counter-asset, deposit at most the per-pool cap and at most the room under it "
+              "for a live pool), no_module_recipient / blocked_any_form (every spelling of a blocked recipient is rejected), "
+              "pools_against_standard (invariant). Onboarding auto-swaps go through the same trade function (see C11). The correspondence "
+              "changes parameters under live pools and draws recipients from all module accounts in both bech32 cases."),
         note=COMMON_NOTE),
 }
